@@ -317,7 +317,10 @@ func NewWorld(cfg Config) (*World, error) {
 	w.Now = time.Unix(cfg.GenesisUnix, 0).UTC()
 	var first abci.ResponseInitChain
 	for i, r := range w.Reps {
-		res := r.App.InitChain(w.initChainReq(gen))
+		var res abci.ResponseInitChain
+		if err := w.safely(r, "init", func() { res = r.App.InitChain(w.initChainReq(gen)) }); err != nil {
+			return nil, err
+		}
 		if i == 0 {
 			first = res
 		}
